@@ -221,7 +221,12 @@ func (c *LocalActionsCache) FindMetadata(spec string) (*ActionMetadata, bool, er
 		return nil, false, nil
 	}
 
-	if m, ok := c.readCache(spec); ok {
+	// Look up and fill the cache in one critical section. Otherwise two files linted in parallel can both miss
+	// the cache and both report the defects of the same action
+	c.mu.Lock()
+	defer c.mu.Unlock()
+
+	if m, ok := c.cache[spec]; ok {
 		c.debug("Cache hit for %s: %v", spec, m)
 		return m, true, nil
 	}
@@ -231,7 +236,7 @@ func (c *LocalActionsCache) FindMetadata(spec string) (*ActionMetadata, bool, er
 	if !ok {
 		c.debug("No action metadata found in %s", dir)
 		// Remember action was not found
-		c.writeCache(spec, nil)
+		c.cache[spec] = nil
 		// Do not complain about the action does not exist (#25, #40).
 		// It seems a common pattern that the local action does not exist in the repository
 		// (e.g. Git submodule) and it is cloned at running workflow (due to a private repository).
@@ -240,7 +245,7 @@ func (c *LocalActionsCache) FindMetadata(spec string) (*ActionMetadata, bool, er
 
 	var meta ActionMetadata
 	if err := yaml.Unmarshal(b, &meta); err != nil {
-		c.writeCache(spec, nil) // Remember action was invalid
+		c.cache[spec] = nil // Remember action was invalid
 		msg := strings.ReplaceAll(err.Error(), "\n", " ")
 		return nil, false, fmt.Errorf("could not parse action metadata in %q: %s", dir, msg)
 	}
@@ -248,7 +253,7 @@ func (c *LocalActionsCache) FindMetadata(spec string) (*ActionMetadata, bool, er
 	meta.dir = dir
 
 	c.debug("New metadata parsed from action %s: %v", dir, &meta)
-	c.writeCache(spec, &meta)
+	c.cache[spec] = &meta
 	return &meta, false, nil
 }
 
